@@ -128,6 +128,11 @@ func (a *Array) Interface() ([]interface{}, error) {
 	if lenEst < 0 {
 		lenEst = 0
 	}
+	// The estimate counts nested content as well, so cap it: for arrays nested
+	// n deep the estimates would otherwise add up to n*n/2 preallocated slots.
+	if lenEst > 1024 {
+		lenEst = 1024
+	}
 	dst := make([]interface{}, 0, lenEst)
 	i := a.Iter()
 	for i.Advance() != TypeNone {
